@@ -163,14 +163,19 @@ class Capacity(object):
         self.last_test = None
         self.slice_exprs = []
         self.limit_test = None
+        from engine.cfg import cfg_of
+        from .common import sym_expr
+        bcfg = cfg_of(fi)
         for n in walk_own(fi.node):
             if isinstance(n, ast.If) and isinstance(n.test, ast.Compare) and len(n.test.ops) == 1 and norm(n.test.left) == "len(%s)" % p:
                 op = n.test.ops[0]
                 raises = any(isinstance(s, ast.Raise) for s in n.body)
+                tn = bcfg.node_of(n.test)
+                rhs = sym_expr(fi, n.test.comparators[0], tn) if tn is not None else n.test.comparators[0]
                 if raises and isinstance(op, (ast.Gt, ast.GtE)):
-                    self.limit_test = (n.test.comparators[0], 0 if isinstance(op, ast.Gt) else -1, n)
+                    self.limit_test = (rhs, 0 if isinstance(op, ast.Gt) else -1, n)
                 elif isinstance(op, (ast.Lt, ast.LtE)) and not raises:
-                    self.last_test = (n.test.comparators[0], 0 if isinstance(op, ast.Lt) else 1, n)
+                    self.last_test = (rhs, 0 if isinstance(op, ast.Lt) else 1, n)
             if isinstance(n, ast.Subscript) and norm(n.value) == p and isinstance(n.slice, ast.Slice):
                 self.slice_exprs.append(n)
         # the if/else shape of the split loop is optional: when it is not recognised the split is decided by the length
@@ -355,6 +360,9 @@ class SplitModel(object):
             return st["rng"][1] > st["rng"][0]
         if isinstance(t, ast.Call) and norm(t.func) == "len" and norm(t.args[0]) == self.p:
             return st["rng"][1] > st["rng"][0]
+        if isinstance(t, ast.Compare) and len(t.ops) > 1:
+            parts = [t.left] + list(t.comparators)
+            return all(self.test(ast.Compare(left=parts[i], ops=[t.ops[i]], comparators=[parts[i + 1]]), st, ov) for i in range(len(t.ops)))
         if isinstance(t, ast.Compare) and len(t.ops) == 1:
             def val(x):
                 return self.ival(x, st, ov)
@@ -418,10 +426,22 @@ class SplitModel(object):
                 t = norm(s.targets[0])
                 if t == self.p:
                     st["rng"] = self.span(s.value, st, ov)
-                elif t == "self.fragments":
-                    if norm(s.value) != "[]":
+                elif t == "self.fragments" or (isinstance(s.targets[0], ast.Name) and (isinstance(s.value, ast.List) or
+                                                                                    (isinstance(s.value, ast.Name) and s.value.id in st.setdefault("lists", {})))):
+                    # the fragment list itself, or a local list that will become it
+                    lists = st.setdefault("lists", {})
+                    if isinstance(s.value, ast.List):
+                        val = [self.span(e_, st, ov) for e_ in s.value.elts]
+                    elif isinstance(s.value, ast.Name) and s.value.id in lists:
+                        val = lists[s.value.id]
+                    elif norm(s.value) == "self.fragments":
+                        val = st["frags"]
+                    else:
                         raise Undecided("split model: %s" % norm(s))
-                    st["frags"] = []
+                    if t == "self.fragments":
+                        st["frags"] = val
+                    else:
+                        lists[t] = val
                 elif t.startswith("self.") and t not in ("self.fragments",):
                     pass          # bookkeeping lists (acks, payloads, msgseqs) do not influence the split
                 elif isinstance(s.targets[0], ast.Name) and self._is_int_expr(s.value, st):
@@ -430,6 +450,9 @@ class SplitModel(object):
                     raise Undecided("split model: assignment %s is not modelled" % norm(s)[:60])
             elif isinstance(s, ast.Expr) and isinstance(s.value, ast.Call) and norm(s.value.func) == "self.fragments.append" and len(s.value.args) == 1:
                 st["frags"].append(self.span(s.value.args[0], st, ov))
+            elif isinstance(s, ast.Expr) and isinstance(s.value, ast.Call) and isinstance(s.value.func, ast.Attribute) and s.value.func.attr == "append" \
+                    and isinstance(s.value.func.value, ast.Name) and s.value.func.value.id in st.get("lists", {}) and len(s.value.args) == 1:
+                st["lists"][s.value.func.value.id].append(self.span(s.value.args[0], st, ov))
             elif isinstance(s, ast.Expr) and isinstance(s.value, ast.Constant):
                 pass
             else:
